@@ -406,6 +406,11 @@ def structure_function_vk(seperation, r0, L0):
     Returns:
         ndarray, float: Structure function for seperation(s)
     """
+    # At zero seperation the Bessel term below is 0 * inf, the structure function is 0
+    seperation = numpy.asarray(seperation, dtype=float)
+    zero_seperation = (seperation == 0)
+    seperation = numpy.where(zero_seperation, 1., seperation)
+
     ## theoretical structure function
     D_vk = (    0.17253 * (L0 / (r0)) ** (5. / 3.)
                 * (1 - 2 * numpy.pi ** (5. / 6.) * ((seperation) / L0) ** (5. / 6.)
@@ -413,7 +418,7 @@ def structure_function_vk(seperation, r0, L0):
                 * scipy.special.kv(5. / 6., (2 * numpy.pi * seperation) / L0))
             )
 
-    return D_vk
+    return numpy.where(zero_seperation, 0., D_vk)[()]
 
 
 def structure_function_kolmogorov(separation, r0):
